@@ -91,6 +91,26 @@ def exp_with_vector_theta(env, cfg, ck):
             ck.eq('elem%d' % i, r.data[i], ck.call(S.exp, ths[i], cfg['unit']).A, scale=tscale(np, q))
 
 
+@contract('C18', targets=[TW + 'Twist2.exp'], configs=product(unit=['rad', 'deg'], kind=['revolute', 'prismatic']))
+def planar_exp_with_vector_theta(env, cfg, ck):
+    """planar twist: a vector of theta values yields the corresponding sequence, in either angular unit"""
+    np, sm = env.np, env.sm
+    q = env.reals('q', 2)
+    if cfg['kind'] == 'revolute':
+        S = sm.Twist2.Revolute(q)
+    else:
+        S = sm.Twist2.Prismatic(env.unitvec('a', 2))
+    ths = [env.angle('t0'), env.angle('t1')]
+    for t in ths:
+        env.assume(t * t >= 1e-18)
+    for form in (list, np.array):
+        r = ck.call(S.exp, form(ths), cfg['unit'])
+        ck.is_instance('class', r, sm.SE2)
+        ck.true('len', len(r) == 2)
+        for i in range(2):
+            ck.eq('elem%d' % i, r.data[i], ck.call(S.exp, ths[i], cfg['unit']).A, scale=tscale(np, q))
+
+
 @contract('C18', targets=[TW + 'Twist2.Revolute', TW + 'Twist2.Prismatic', TW + 'Twist2.exp', TW + 'Twist2.se2', TW + 'SMTwist.inv'],
           configs=product(unit=['rad', 'deg']))
 def planar_twists(env, cfg, ck):
